@@ -27,6 +27,9 @@ AFTER = ["c_after_start", "c_noarb_after_start"]   # A and B act only after star
 RAW = ["r_race", "r_early"]   # C++20: cancellable{create_raw_sender<>(event-dispatch lambda)} = configurations c_race / c_early
 
 
+from .c19_probe import BasicSenderProbePart
+
+
 def run(tier, seed, replay=None):
     parts = [
         # always_report_rejected: the model admits the failing histories of the two known defects, so a
@@ -38,6 +41,7 @@ def run(tier, seed, replay=None):
         AtomicPart("canary", SCN, LIB, "canary", CANARY, quick=dict(preemptions=3, max_execs=4000), always_report_rejected=True),
         AtomicPart("stop_on_request", SCN, LIB, "stoponrequest", SOR),
         AtomicPart("create_raw_sender", SCN, LIB, "cancellable", RAW, std="gnu++20", always_report_rejected=True),
+        BasicSenderProbePart(),
     ]
     # debugging aid (mutation experiments): VERIF_C19_PARTS=cancellable,canary runs only those parts
     only = [x for x in os.environ.get("VERIF_C19_PARTS", "").split(",") if x]
@@ -56,7 +60,8 @@ def run(tier, seed, replay=None):
                      "instances: one operation, <=3 threads (theorems are per instance, all schedules of unbounded length)",
                      "create_raw_sender adds no shared state to cancellable<> (thin connect wrapper, exercised through the "
                      "library's _lambda_op in the C++20 part); create_basic_sender (recursive mutex + weak_ptr, C++20 only) is "
-                     "NOT modelled and not exercised"],
+                     "NOT modelled; it is exercised single-threaded by a model-independent probe (harness/evt/basicprobe.cpp: where the stop is issued x "
+                     "what the stop hook does x where the natural completion happens; oracle = the property sentence — a test, not a theorem)"],
         trusted_extra=["harness/rt (cooperative scheduler, __tsan_* shim)", "Core/Admit.lean trace-inclusion test",
                        "g++ 12 -fsanitize=thread instrumentation"],
         explanation="Theorems: Props/C19_* — per scenario configuration the kernel-evaluated closure of the reachable state space "
